@@ -179,6 +179,47 @@ theorem isEqual_iff : ∀ (l r : List Nat), isEqual l r = true ↔ l = r
   | _ :: _, [] => by simp [isEqual]
   | a :: as, b :: bs => by simp [isEqual, isEqual_iff as bs]
 
+/-! ### The order operators are the lexicographic order of the unit lists (`<`/`≤` of `List Nat`; a
+proper prefix is smaller), `>`/`>=` are their mirror images -/
+theorem isLess_iff_lt : ∀ (l r : List Nat), isLess l r false = true ↔ l < r
+  | [], [] => by simp [isLess]
+  | [], _ :: _ => by simp [isLess]
+  | _ :: _, [] => by simp [isLess]
+  | a :: as, b :: bs => by
+    have ih := isLess_iff_lt as bs
+    rw [List.cons_lt_cons_iff]
+    unfold isLess
+    split
+    · simp; omega
+    · split
+      · simp; omega
+      · have : a = b := by omega
+        simp [this, ih]
+
+theorem isLess_orEqual_iff_le : ∀ (l r : List Nat), isLess l r true = true ↔ l ≤ r
+  | [], [] => by simp [isLess]
+  | [], _ :: _ => by simp [isLess]
+  | _ :: _, [] => by simp [isLess]
+  | a :: as, b :: bs => by
+    have ih := isLess_orEqual_iff_le as bs
+    rw [List.cons_le_cons_iff]
+    unfold isLess
+    split
+    · simp; omega
+    · split
+      · simp; omega
+      · have : a = b := by omega
+        simp [this, ih]
+
+theorem isGreater_eq_isLess_swap : ∀ (l r : List Nat) (oe : Bool), isGreater l r oe = isLess r l oe
+  | [], [], oe => by simp [isLess, isGreater]
+  | [], _ :: _, oe => by simp [isLess, isGreater]
+  | _ :: _, [], oe => by simp [isLess, isGreater]
+  | a :: as, b :: bs, oe => by
+    have ih := isGreater_eq_isLess_swap as bs oe
+    unfold isLess isGreater
+    simp only [gt_iff_lt, ih]
+
 /-! ### Non-vacuity: concrete programs (tests, by evaluation) -/
 example : (arrRun 0 [.push 0 1, .push 0 2, .appC 0 0, .appM 1 0, .resizeInit 2 3] arrInit 1).data = [1, 2, 1, 2] := by decide
 example : (arrRun 0 [.push 0 1, .push 0 2, .appC 0 0, .appM 1 0, .resizeInit 2 3] arrInit 1).cap = 4 := by decide
